@@ -41,6 +41,7 @@ type failure struct {
 	reason string
 	replay string
 	input  bool // a failing input was reproduced on the real code
+	testFile string
 	known  *Finding
 }
 
